@@ -23,7 +23,8 @@ OBLIGATIONS = ["NiftyVerif.C32." + t for t in (
     "leapfrog_jacobian_det_one", "leapfrog_linear_is_matrix",
     "metropolis_detailed_balance", "metropolis_invariant", "transitionProbability_eq",
     "exp_logaddexp", "logaddexp_weight_total", "merge_weight", "expit_keep", "progressive_sampling_step",
-    "nuts_slot_invariant", "nuts_subtree_count", "leapfrog_volume_preserving", "flip_volume_preserving")]
+    "nuts_slot_invariant", "nuts_subtree_count", "leapfrog_volume_preserving", "flip_volume_preserving",
+    "progressive_sampling_multinomial", "merge_multinomial")]
 RULE = ("leap case = (dimension 1..3, potential ½qᵀAq + Σb q⁴/4 + c·q or a non-polynomial one, diagonal inverse mass, step "
         "size, number of steps, start (q,p)); accrej case = the same plus a PRNG key; slots case = every leaf index n < 2^depth; "
         "non-trivial = non-zero force and momentum (leap), |u−p| outside the 1e-6 margin (accrej), odd n (slots)")
